@@ -699,6 +699,11 @@ func runC10(r *Rand, tier string, o *Out) {
 		}
 		o.Count("busy-consumer")
 	}
+	// a handler registered while a message is being dispatched
+	if out := o.Do("P", "c10.lateadd 5", true); out != "ok" {
+		o.Fail("a handler registered during a dispatch: "+strings.SplitN(strings.TrimPrefix(out, "fail:"), " ", 2)[0], "c10.lateadd 5 => "+out)
+	}
+	o.Count("handler-registered-during-a-dispatch")
 	// a peer that stops reading for eleven seconds in the middle of large frames
 	if out := o.Do("P", "c10.stall", true); out != "ok" {
 		o.Fail("a peer that stops reading for a while: "+strings.SplitN(strings.TrimPrefix(out, "fail:"), " ", 2)[0], "c10.stall => "+out)
